@@ -12,7 +12,7 @@
 (* queries of a configuration; every terminal state is one test vector     *)
 (* (input + expected result) that the harness replays against the code.    *)
 (***************************************************************************)
-EXTENDS Integers, Sequences, FiniteSets, TLC, Json
+EXTENDS NixUnitTable, FiniteSets, TLC, Json
 
 CONSTANTS
     CrossPrefixes,   \* prefixes used for the "different unit / power" vectors
@@ -21,37 +21,6 @@ CONSTANTS
     Kinds            \* which vector kinds this configuration produces
 
 Nil == [kind |-> "nil"]
-
-PrefixSeq == << "", "Y", "Z", "E", "P", "T", "G", "M", "k", "h", "da",
-                "d", "c", "m", "u", "n", "p", "f", "a", "z", "y" >>
-Prefix == { PrefixSeq[i] : i \in 1..Len(PrefixSeq) }
-
-Exp(p) == CASE p = ""   -> 0
-            [] p = "Y"  -> 24  [] p = "Z" -> 21  [] p = "E" -> 18
-            [] p = "P"  -> 15  [] p = "T" -> 12  [] p = "G" -> 9
-            [] p = "M"  -> 6   [] p = "k" -> 3   [] p = "h" -> 2
-            [] p = "da" -> 1   [] p = "d" -> -1  [] p = "c" -> -2
-            [] p = "m"  -> -3  [] p = "u" -> -6  [] p = "n" -> -9
-            [] p = "p"  -> -12 [] p = "f" -> -15 [] p = "a" -> -18
-            [] p = "z"  -> -21 [] p = "y" -> -24
-
-Unit == { "m", "g", "s", "A", "K", "mol", "cd", "Hz", "N", "Pa", "J", "W",
-          "C", "V", "F", "S", "Wb", "T", "H", "lm", "lx", "Bq", "Gy", "Sv",
-          "kat", "l", "L", "Ohm", "%", "dB", "rad" }
-
-\* power 0 stands for "no power written"; an explicit "^1" is a different
-\* spelling of the same power (the pair none / ^1 is left open, DESIGN C09)
-Power == -3..3
-PowVal(k) == IF k = 0 THEN 1 ELSE k
-
-Digits == << "0", "1", "2", "3", "4", "5", "6", "7", "8", "9" >>
-NatStr(n) == Digits[n + 1]                       \* 0..9 is all we need
-IntStr(k) == IF k < 0 THEN "-" \o NatStr(-k) ELSE NatStr(k)
-PowStr(k) == IF k = 0 THEN "" ELSE IntStr(k)     \* what split() must return
-Str(p, u, k) == p \o u \o (IF k = 0 THEN "" ELSE "^" \o IntStr(k))
-
-Scalable(ua, ka, ub, kb) == ua = ub /\ ka = kb
-Scale10(pa, pb, k) == (Exp(pa) - Exp(pb)) * PowVal(k)
 
 (***************************************************************************)
 (* The grammar is unambiguous iff no string prefix \o unit has two         *)
